@@ -257,6 +257,22 @@ func main() {
 		c.Finish()
 		os.Exit(0)
 	}
+	if cfg.proto == "udp" {
+		// alongside the cases: a session of its own that lives across several template refresh intervals
+		refreshDone := make(chan struct{})
+		go func() {
+			defer close(refreshDone)
+			c.Guard(-2, "refresh:"+cfg.name, nil, func() {
+				if why := refreshCase(c, cfg, c.Rand(-2, 0)); why != "" {
+					// confirm on a fresh session before reporting (a refresh tick delayed by seconds on a loaded machine)
+					if why2 := refreshCase(c, cfg, c.Rand(-2, 1)); why2 != "" {
+						c.Violation(-2, "not-delivered-after-refresh:"+cfg.name, why2, nil)
+					}
+				}
+			})
+		}()
+		defer func() { <-refreshDone }()
+	}
 	defer func() {
 		if s != nil {
 			s.close()
@@ -537,4 +553,93 @@ func clip(b []byte) []byte {
 		return b[:24]
 	}
 	return b
+}
+
+// refreshCase: over a datagram transport templates live at the collector for the configured lifetime after their
+// most recent (re)transmission, and the exporter retransmits every template each refresh interval. Three
+// templates, refresh interval 1 s, lifetime 3 s at the collector; after 4.2 s without application traffic one data
+// record per template must be delivered exactly as sent. Returns "" or what went wrong.
+func refreshCase(c *hx.Ctx, cfg config, r *rand.Rand) string {
+	host := "127.0.0.1:0"
+	if cfg.v6 {
+		host = "[::1]:0"
+	}
+	in := collector.CollectorInput{Address: host, Protocol: "udp", MaxBufferSize: 65535, IsIPv6: cfg.v6, IsEncrypted: cfg.enc, TemplateTTL: 3}
+	if cfg.enc {
+		in.ServerCert, in.ServerKey = server.CertPEM, server.KeyPEM
+	}
+	coll, err := lib.StartCollector(in)
+	if err != nil {
+		c.Inconclusive("refresh case: collector: " + err.Error())
+		return ""
+	}
+	defer coll.Stop(20 * time.Second)
+	domain := 0xC01F0000 | uint32(c.Batch)<<8 | uint32(r.IntN(256))
+	ein := exporter.ExporterInput{CollectorAddress: coll.Addr(), CollectorProtocol: "udp", ObservationDomainID: domain, IsIPv6: cfg.v6, TempRefTimeout: 1}
+	if cfg.enc {
+		ein.TLSClientConfig = &exporter.ExporterTLSClientConfig{CAData: ca.CertPEM}
+	}
+	ep, err := exporter.InitExportingProcess(ein)
+	if err != nil {
+		c.Inconclusive("refresh case: exporter: " + err.Error())
+		return ""
+	}
+	defer ep.CloseConnToCollector()
+	el := []regtable.Elem{lib.CustomElems[11]} // vfUnsigned32
+	nT := 3 + r.IntN(3)
+	var tids []uint16
+	for i := 0; i < nT; i++ {
+		tid := ep.NewTemplateID()
+		ts, err := lib.TemplateSet(tid, el, 0)
+		if err != nil {
+			return "templateset: " + err.Error()
+		}
+		if _, err := ep.SendSet(ts); err != nil {
+			return "template send: " + err.Error()
+		}
+		tids = append(tids, tid)
+	}
+	time.Sleep(4200 * time.Millisecond)
+	got := map[uint16]bool{}
+	vals := map[uint16]uint64{}
+	for _, tid := range tids {
+		v := uint64(r.Uint32())
+		vals[tid] = v
+		ds := entities.NewSet(false)
+		if err := lib.FillDataSet(ds, tid, el, [][][]byte{{refipfix.PU(4, v)}}, nil); err != nil {
+			return "dataset: " + err.Error()
+		}
+		if _, err := ep.SendSet(ds); err != nil {
+			return "data send after 4.2 s: " + err.Error()
+		}
+	}
+	refreshed := 0
+	deadline := time.Now().Add(3 * time.Second)
+	for len(got) < len(tids) && time.Now().Before(deadline) {
+		d, ok := coll.Pop(domain, time.Until(deadline))
+		if !ok {
+			break
+		}
+		o := d.Out
+		if o.ExtractErr != nil {
+			return fmt.Sprintf("a delivered message could not be read: %v", o.ExtractErr)
+		}
+		if o.IsTemplate {
+			refreshed++
+			continue
+		}
+		if want, known := vals[o.SetID]; known {
+			if len(o.Records) != 1 || len(o.Records[0]) != 1 || !bytes.Equal(o.Records[0][0], refipfix.PU(4, want)) {
+				return fmt.Sprintf("data for template %d delivered as %x, sent %x", o.SetID, o.Records, refipfix.PU(4, want))
+			}
+			got[o.SetID] = true
+		}
+	}
+	c.Add("refresh_cases", 1)
+	c.Add("template_messages_delivered_in_refresh_cases", int64(refreshed))
+	if len(got) < len(tids) {
+		return fmt.Sprintf("%s: %d templates sent, refresh interval 1 s, template lifetime at the collector 3 s; 4.2 s later one data record per template was sent and only those of %d templates were delivered (%d template messages were delivered in all): templates were not kept alive by the refresh", cfg.name, len(tids), len(got), refreshed)
+	}
+	c.Add("refresh_cases_all_data_delivered", 1)
+	return ""
 }
